@@ -184,7 +184,43 @@ def sym_float(x=0.0):
         return x
     if isinstance(x, (p.SymInt, p.SymBool)):
         return p.SymFloat.of_int(x)
-    return builtins.float(str(x))
+    els = p._els(x)
+    if els is None or all(isinstance(c, builtins.str) for c in els):
+        return builtins.float(str(x))
+    # a string with symbolic characters: each is one of the ASCII characters float() can accept (enumerated),
+    # a non-ASCII decimal digit (float() reads it as its digit value: one fork per value), or any other
+    # character, for which float() raises ValueError whatever it is
+    import z3
+    from symex import core
+    e = core.CUR
+    chars, other = [], False
+    for c in els:
+        if isinstance(c, builtins.str):
+            chars.append(c)
+            continue
+        if e.decide(z3.Or([c.t == ord(ch) for ch in _FLOAT_ASCII])):
+            chars.append(chr(e.concretise(c.t, limit=len(_FLOAT_ASCII) + 1)))
+            continue
+        blocks = [a for a, b in p.char_class_ranges("isdecimal") for a in range(a, b + 1, 10) if a > 127]
+        if e.decide(z3.Or([z3.And(c.t >= a, c.t <= a + 9) for a in blocks])):
+            for d in range(9):
+                if e.decide(z3.Or([c.t == a + d for a in blocks])):
+                    chars.append(builtins.str(d))
+                    break
+            else:
+                chars.append("9")
+            continue
+        # white space other than ASCII is stripped by float() at the ends only: assumed away (outside the claim)
+        e.assume(z3.Not(z3.Or([c.t == w for w in (0x1c, 0x1d, 0x1e, 0x1f, 0x85, 0xa0, 0x1680, 0x2028, 0x2029, 0x202f,
+                                                  0x205f, 0x3000)] + [z3.And(c.t >= 0x2000, c.t <= 0x200a)])))
+        other = True
+        chars.append(c)
+    if other:
+        raise builtins.ValueError(p.SymStr(list("could not convert string to float: '") + chars + ["'"]))
+    return builtins.float("".join(chars))
+
+
+_FLOAT_ASCII = "0123456789+-._eEinfatyINFATY \t\n\r\x0b\x0c"
 
 
 def sym_str(x=""):
